@@ -168,6 +168,7 @@ func loadWith(repo, tier, goarch string, tests bool, minLib int) (*Ctx, error) {
 	sort.Slice(c.Funcs, func(i, j int) bool { return fname(c.Funcs[i]) < fname(c.Funcs[j]) })
 	c.eff = newEffEngine(c)
 	c.tables = newTableEval(c)
+	ctxByProg[c.Prog] = c
 	return c, nil
 }
 
@@ -247,6 +248,9 @@ func (c *Ctx) Global(pkg, name string) *ssa.Global {
 	}
 	return nil
 }
+
+// ctxByProg finds the analysis context of an SSA value (the evaluator folds literal tables through it).
+var ctxByProg = map[*ssa.Program]*Ctx{}
 
 func gname(g *ssa.Global) string { return g.Pkg.Pkg.Name() + "." + g.Name() }
 
